@@ -11,6 +11,11 @@ CLAIMED = {
   "Every tree of the stated finite space is encoded by the real encoder and parsed by an independent strict parser, and the independent generator's bytes are decoded by the real decoder; the space is enumerated completely (exhaustive:true).",
   "Trusted: refttlv (200 lines, written from the spec), the Go toolchain. Values outside the alphabets are represented by boundary classes only.",
   "DESIGN.md §3 C03"),
+ "C08": ("model_checking", "mcsched",
+  "stateless model checking of the real kmipserver code under a controlled scheduler: exhaustive DFS over thread interleavings, select choices and timer firings within a preemption bound, happens-before state cache",
+  "The repository's kmipserver sources are re-compiled with every channel/select/atomic/WaitGroup/context/timer operation turned into a scheduling point; scripted client connections (valid, pipelined, partial, garbage, oversized, abrupt close, half-close, panicking and slow handlers, 16-byte pipes) are explored over all schedules up to the bound; oracle: no panic, no deadlock, no leaked per-connection goroutine, exactly one in-order response per well-formed request, one invalid-message response for framed garbage.",
+  "Trusted: instrumenter rewrite rules and mc shim semantics (FIFO waiter order, abstract timers, sequentially consistent memory), in-memory network model. Bounds: <=3 connections, preemption bound 1 (quick) / 2 (thorough) for one connection, 0/1 for two.",
+  "DESIGN.md §2 E1, §3 C08"),
 }
 NOT_YET = "check not built yet in this session (planned, see DESIGN.md §3)"
 NA = {}
